@@ -33,6 +33,9 @@ checks={
  "C03":dict(engine="E3",cat="exploration",tech=E3T,
    text="all 65536 type codes probed; for each of 37 pack types (factory-registered and unregistered server-monitoring packs) every object with at most 1 (2 thorough) reflected field slots deviating from two bases over boundary alphabets is encoded, decoded, checked for same concrete type, exact consumption and byte-identical re-encode; a pinned carried-field baseline catches a field dropped from writer and reader alike; record-list packs (0-3 records, every single-field deviation of each record type, every record version), zip / log-sink zip (every inner sequence up to length 2 (3), thresholds len-1/len/len+1) return records unchanged, in order and stamped",
    note="constructor invariants preserved; wire-equivalence instead of field equality; known findings: ServerInfoPack writer/reader disagreement, CounterPack1 poid meter",ref="DESIGN.md 4 C03"),
+ "C07":dict(engine="E3",cat="exploration",tech=E3T,
+   text="all 256 type bytes probed (18 types); versions = every literal compared with Ver in the udp sources +-1 plus family borders (~60); for every (type, version) every field assignment with at most 1 (2) deviating slots is written and read back at the same version (consumed exactly, byte-identical re-encode, judged after Process() where Process completes decoding); every acquire/fill/release history up to depth 4 (6) over two handles returns clean packs and the released object itself is inspected; every connection string of up to 3 (4) key=value tokens over four separators loses its password value after Process() at Go/PHP versions and is unchanged at the others",
+   note="version list is regenerated from /repo sources at run time; password key matching is the literal key 'password'",ref="DESIGN.md 4 C07"),
  "C08":dict(engine="E3",cat="exploration",tech=E3T,
    text="all 256 step tags probed; every step type and HttpcStepX version with at most 1 (2) reflected slots deviating from two bases round-trips (same type, consumed exactly, byte-identical re-encode); every stream of up to 3 (4) step instances over two instances per creatable type is decoded step by step with offset bookkeeping; all 32 combinations of the optional groups of a transaction record plus deviations, with the documented error-level defaulting; the three service types; profile / step-split / error-snap packs return their step blobs decodable to the same steps",
    note="SqlStep_3 does not implement the Step interface and is not part of a stream",ref="DESIGN.md 4 C08"),
